@@ -58,7 +58,9 @@ IQ = {"q4": "quantized_bits(4,1,1)", "q3": "quantized_bits(3,0,1)", "relu": "qua
       "rpo2": "quantized_relu_po2(3)", "rpo2_mv2": "quantized_relu_po2(3,max_value=2)"}
 IQ_BASE = ["q4", "q3", "relu"]
 AQ = "quantized_relu(3,1)"
-KINDS = ["QDense", "QConv1D", "QConv2D", "QDepthwiseConv2D"]
+# QConv2DBatchnorm: the folded layer (kernel and bias are the FOLDED weights; a folded bias exists even with use_bias=False);
+# its input has 4 channels so that the 2x2 kernel sums 16 = 2^4 products
+KINDS = ["QDense", "QConv1D", "QConv2D", "QDepthwiseConv2D", "QConv2DBatchnorm"]
 PATTERNS = ["grid7", "max", "min", "alternating"]
 
 
@@ -75,6 +77,8 @@ def enumerate_cases(tier, seed):
   out = []
   for kind in KINDS:
     for wq in WQ:
+      if kind == "QConv2DBatchnorm" and wq not in ("fixed", "fixed_narrow", "ternary"):
+        continue
       for use_bias in (True, False):
         for iq in IQ:
           if wq in ("sternary", "sbinary"):
@@ -87,7 +91,7 @@ def enumerate_cases(tier, seed):
             out.append(dict(layers=[dict(kind=kind, wq=wq, use_bias=use_bias)], iq=iq, pattern=pat, _seed=seed))
   # histories: QTools is run on the SAME model object twice - first with other weights (another data-dependent scale), then
   # with the weights under test: the second report describes the second state
-  for kind in KINDS:
+  for kind in KINDS[:4]:
     for prelude in ("small-first", "large-first"):
       for pat in ("grid7", "max"):
         out.append(dict(layers=[dict(kind=kind, wq="auto_po2", use_bias=True)], iq="q4", pattern=pat, prelude=prelude, _seed=seed))
@@ -112,7 +116,7 @@ def build(case):
   import qkeras  # pylint: disable=import-outside-toplevel
   L = tf.keras.layers
   first = case["layers"][0]["kind"]
-  shape = {"QDense": (5,), "QConv1D": (5, 3)}.get(first, (5, 5, 3))
+  shape = {"QDense": (5,), "QConv1D": (5, 3), "QConv2DBatchnorm": (5, 5, 4)}.get(first, (5, 5, 3))
   x = inp = L.Input(shape, name="inp")
   for i, ly in enumerate(case["layers"]):
     kq, bq = WQ[ly["wq"]]
@@ -128,6 +132,8 @@ def build(case):
       x = qkeras.QConv1D(2, 2, kernel_quantizer=kq, bias_quantizer=bq, use_bias=ly["use_bias"], name=name)(x)
     elif kind == "QConv2D":
       x = qkeras.QConv2D(2, 2, kernel_quantizer=kq, bias_quantizer=bq, use_bias=ly["use_bias"], name=name)(x)
+    elif kind == "QConv2DBatchnorm":
+      x = qkeras.QConv2DBatchnorm(2, 2, kernel_quantizer=kq, bias_quantizer=bq, use_bias=ly["use_bias"], name=name)(x)
     else:
       x = qkeras.QDepthwiseConv2D(2, depthwise_quantizer=kq, bias_quantizer=bq, use_bias=ly["use_bias"], name=name)(x)
   model = tf.keras.Model(inp, x)
@@ -149,7 +155,14 @@ def set_weights(model, pattern, seed):
         v = np.full(w.shape, -100.0, dtype=np.float32)
       else:
         v = (100.0 * (1 - 2 * (np.arange(w.size) % 2))).astype(np.float32).reshape(w.shape)
-      new.append(v.astype(np.float32))
+      nm = l.weights[j].name
+      if w.ndim == 0:
+        v = w                                  # iteration counter of a folded layer
+      elif "variance" in nm:
+        v = np.abs(v) * np.float32(0.01) + np.float32(0.5)
+      elif "gamma" in nm or "moving_mean" in nm or "beta" in nm:
+        v = v * np.float32(0.01)               # batch-norm parameters of order one
+      new.append(np.asarray(v, dtype=np.float32))
     l.set_weights(new)
 
 
@@ -243,12 +256,18 @@ def run_case(case):
     wq = ly["wq"]
     quants = layer.get_quantizers()
     raw = layer.get_weights()
-    eff = [np.asarray(q(tf.constant(w)), dtype=np.float64) if q is not None else w.astype(np.float64)
-           for q, w in zip(quants, raw)]
-    kernel = eff[0]
-    bias = eff[1] if layer.use_bias else None
+    if cn == "QConv2DBatchnorm":
+      fk, fb = layer.get_folded_weights()
+      eff = [np.asarray(q(fw), dtype=np.float64) if q is not None else np.asarray(fw, dtype=np.float64)
+             for q, fw in zip(quants, (fk, fb))]
+      kernel, bias = eff[0], eff[1]
+    else:
+      eff = [np.asarray(q(tf.constant(w)), dtype=np.float64) if q is not None else w.astype(np.float64)
+             for q, w in zip(quants, raw)]
+      kernel = eff[0]
+      bias = eff[1] if layer.use_bias else None
     # --- weights / bias fit their reported types ----------------------------------------------------
-    wd = qtypes.den(entry["weight_quantizer"])
+    wd = qtypes.den(gv(entry, "weight_quantizer"))
     kcodes = kernel
     if wq == "auto_po2":
       sc = np.asarray(quants[0].scale, dtype=np.float64)
@@ -258,17 +277,17 @@ def run_case(case):
     if not okw.all():
       bad("weight-type", "%s kernel value %r is not in the reported weight type %r" % (
           layer.name, float(kcodes.reshape(-1)[~okw][0]), wd), cn, wq)
-    if bias is not None and entry["bias_quantizer"] is not None:
-      bd = qtypes.den(entry["bias_quantizer"])
+    if bias is not None and gv(entry, "bias_quantizer") is not None:
+      bd = qtypes.den(gv(entry, "bias_quantizer"))
       evals += 1
       okb = qtypes.contains(bd, bias.reshape(-1))
       if not okb.all():
         bad("bias-type", "%s bias value %r is not in the reported bias type %r" % (layer.name, float(bias[~okb][0]), bd), cn, wq)
     # --- the JSON view is the documented transform of the raw map (fixed point: int_bits + is_signed) ---------
     jd = qt._output_dict.get(layer.name, {})     # pylint: disable=protected-access
-    for key, raw in (("weight_quantizer", entry["weight_quantizer"]), ("bias_quantizer", entry["bias_quantizer"]),
-                     ("multiplier", entry["multiplier"].output), ("accumulator", entry["accumulator"].output),
-                     ("output_quantizer", entry["output_quantizer"])):
+    for key, raw in (("weight_quantizer", gv(entry, "weight_quantizer")), ("bias_quantizer", gv(entry, "bias_quantizer")),
+                     ("multiplier", gv(entry, "multiplier").output), ("accumulator", gv(entry, "accumulator").output),
+                     ("output_quantizer", gv(entry, "output_quantizer"))):
       if raw is None or key not in jd:
         continue
       j = jd[key]
@@ -282,7 +301,7 @@ def run_case(case):
         bad("json-view:" + key, "%s: JSON view %r is not the documented transform of the raw type (bits %r, int_bits %r, "
             "signed %r)" % (layer.name, dict(j), raw.bits, raw.int_bits, raw.is_signed), cn)
     # --- accumulator -----------------------------------------------------------------------------------
-    acc_entry = entry["fused_accumulator"] if wq == "auto_po2" else entry["accumulator"]
+    acc_entry = gv(entry, "fused_accumulator") if wq == "auto_po2" else gv(entry, "accumulator")
     ad = qtypes.den(acc_entry.output)
     digest_acc.append(repr(ad))
     # observed pre-activations
@@ -296,7 +315,7 @@ def run_case(case):
       bad("observed-preactivation:" + rel, "%s produced %r, not representable in the reported accumulator %r" % (
           layer.name, float(v), ad), "", wq)
     # worst case from the reported input type
-    ind = qtypes.den(entry["input_quantizer_list"][0])
+    ind = qtypes.den(gv(entry, "input_quantizer_list")[0])
     if ind.kind in ("float", "empty"):
       continue
     xmin, xmax, xl = qtypes.extremes(ind)
@@ -327,8 +346,10 @@ def run_case(case):
     if np.max(np.abs(np.concatenate([hi, lo]))) > max(abs(xmin), abs(xmax)) * 2 and np.max(np.abs(np.concatenate([hi, lo]))) > max(abs(wmin), abs(wmax)) * 2:
       nontriv = 1
     ranges[layer.name] = (xmin, xmax, np.maximum(np.abs(hi), np.abs(lo)))
-  # --- weight-based estimator ----------------------------------------------------------------------------
+  # --- weight-based estimator (plain layers only: it is handed the effective weights through set_weights) ----------
   try:
+    if any(l["kind"] == "QConv2DBatchnorm" for l in case["layers"]):
+      raise StopIteration
     # analyze_accumulator reads layer.get_weights(): hand it the effective weights
     m2 = tf.keras.models.clone_model(model)
     m2.set_weights(model.get_weights())
@@ -344,6 +365,8 @@ def run_case(case):
         kind = model.get_layer(n).__class__.__name__
         bad("analyze_accumulator", "analyze_accumulator reports %d bits for %s but some channel reaches |%r| = 2^%.3f" % (
             sizes[n], n, float(np.max(mags)), need), kind)
+  except StopIteration:
+    pass
   except Exception as e:  # pylint: disable=broad-except
     bad("analyze_accumulator-raises:%s" % type(e).__name__, "analyze_accumulator raised %s: %s" % (type(e).__name__, str(e)[:160]))
   return {"evals": evals, "transitions": len(xs) + 1, "nontrivial": nontriv,
